@@ -230,6 +230,8 @@ func init() {
 }
 
 func progsC05(t *testing.T) {
+	progsInPlaceMonoid(t, "C05", []int{0})
+	typedProgs(t, "C05")
 	for _, n := range thresholds(0, common.Pick(5000, 70000)) {
 		for _, mode := range []string{"left-first", "right-first"} {
 			runProg(t, "C05", &caseT{Stage: "prog/partition-sequential", N: n, Cap: n, Mode: mode, FSeed: uint64(n)})
@@ -315,6 +317,7 @@ func init() {
 }
 
 func progsC08(t *testing.T) {
+	typedProgs(t, "C08")
 	for _, n := range thresholds(1, common.Pick(4100, 70000)) {
 		for i, cp := range []int{0, 1, 3, 16, 17, 100, 1000} {
 			if i > 1 && (n+i)%3 != 0 && !common.Thorough() {
@@ -496,6 +499,7 @@ func widePars() []int {
 }
 
 func progsC09(t *testing.T) {
+	typedProgs(t, "C09")
 	for _, par := range widePars() {
 		for _, n := range []int{par, 2*par + 1, 4*par + 40, 1000} {
 			for _, mode := range []string{"Map", "FMap"} {
@@ -511,6 +515,7 @@ func progsC09(t *testing.T) {
 }
 
 func progsC10(t *testing.T) {
+	progsInPlaceMonoid(t, "C10", []int{1, 2, 3, 4, 8, 33})
 	for _, par := range widePars() {
 		for _, mon := range []string{"sum", "prod", "max", "min", "and", "or"} {
 			ns := []int{0, 1, par - 1, par, par + 1, 3*par + 7}
@@ -554,12 +559,17 @@ func init() {
 		out, exx := pipe.Emit(ctx, c.Cap, tick, mf)
 		nerr := 0
 		errDone := make(chan struct{})
-		go func() {
-			defer close(errDone)
-			for range exx {
-				nerr++
-			}
-		}()
+		if c.Mode == "try+stderr" {
+			out = pipe.StdErr(out, exx) // the library's own error reader
+			close(errDone)
+		} else {
+			go func() {
+				defer close(errDone)
+				for range exx {
+					nerr++
+				}
+			}()
+		}
 		for i := 0; i < c.N; i++ {
 			v, ok := <-out
 			if !ok || v != i+100 {
@@ -662,6 +672,7 @@ func init() {
 }
 
 func progsC11(t *testing.T) {
+	typedProgs(t, "C11")
 	for _, n := range []int{0, 1, 5, 40} {
 		for _, cp := range []int{0, 1, 4, 64} {
 			for _, outage := range []int{0, 3, 20, 300} {
@@ -788,6 +799,7 @@ func init() {
 }
 
 func progsC12(t *testing.T) {
+	typedProgs(t, "C12")
 	for _, k := range thresholds(1, common.Pick(300, 2100)) {
 		for _, cp := range []int{0, 1} {
 			runProg(t, "C12", &caseT{Stage: "prog/join-round-robin", N: k, Cap: cp})
@@ -877,6 +889,7 @@ func init() {
 }
 
 func progsC13(t *testing.T) {
+	typedProgs(t, "C13")
 	for _, ops := range thresholds(1, common.Pick(4200, 70000)) {
 		for i, cp := range []int{0, 1, 5} {
 			if i > 0 && (ops+i)%4 != 0 {
@@ -938,5 +951,105 @@ func callerOwnsClear(s []<-chan int) {
 func callerOwnsFill(s []<-chan int, g int) {
 	for i := range s {
 		s[i] = pipe.Seq(g*1000+i*10, g*1000+i*10+1, g*1000+i*10+2)
+	}
+}
+
+// ---------------------------------------------------------------- C06
+
+func progsC06(t *testing.T) {
+	typedProgs(t, "C06")
+	// a source that fails for good, its errors taken by StdErr (or a reader), then cancel: everything has to go
+	for _, n := range []int{0, 3} {
+		for _, cp := range []int{0, 1, 8} {
+			for _, outage := range []int{0, 5, 100} {
+				for _, mode := range []string{"try", "try+stderr"} {
+					runProg(t, "C06", &caseT{Stage: "prog/emit-outage-then-cancel", N: n, Cap: cp, Delay: outage, Mode: mode, Tick: int64(time.Millisecond)})
+				}
+			}
+		}
+	}
+}
+
+// ---------------------------------------------------------------- monoids over reference values
+
+// A monoid whose carrier is a reference (a counter object, a map) commonly accumulates in place: Combine(a, b) adds b
+// into a and returns a, and Empty() hands out a fresh accumulator. That is a lawful use of Fold as long as every
+// fold (and every worker of a parallel fold) starts from its own Empty().
+type tally struct{ sum, n int }
+
+type tallyMonoid struct{}
+
+func (tallyMonoid) Empty() *tally { return &tally{} }
+func (tallyMonoid) Combine(a, b *tally) *tally {
+	a.sum += b.sum
+	a.n += b.n
+	return a
+}
+
+type bagMonoid struct{}
+
+func (bagMonoid) Empty() map[int]int { return map[int]int{} }
+func (bagMonoid) Combine(a, b map[int]int) map[int]int {
+	for k, v := range b {
+		a[k] += v
+	}
+	return a
+}
+
+func init() {
+	progs["fold-in-place-monoid"] = func(c *caseT) string {
+		ctx, cancel := context.WithCancel(context.Background())
+		defer cancel()
+		ts := make([]*tally, c.N)
+		bs := make([]map[int]int, c.N)
+		wantSum := 0
+		wantBag := map[int]int{}
+		for i := range ts {
+			ts[i] = &tally{sum: i + 1, n: 1}
+			bs[i] = map[int]int{i % 5: 1, 100: 2}
+			wantSum += i + 1
+			wantBag[i%5]++
+			wantBag[100] += 2
+		}
+		for round := 0; round < 2; round++ { // the monoid value is used for more than one fold
+			var gt []*tally
+			var gb []map[int]int
+			if c.Par > 0 {
+				gt = fork.ToSeq(fork.Fold(ctx, c.Par, fork.Seq(ts...), tallyMonoid{}))
+				gb = fork.ToSeq(fork.Fold(ctx, c.Par, fork.Seq(bs...), bagMonoid{}))
+			} else {
+				gt = pipe.ToSeq(pipe.Fold(ctx, pipe.Seq(ts...), tallyMonoid{}))
+				gb = pipe.ToSeq(pipe.Fold(ctx, pipe.Seq(bs...), bagMonoid{}))
+			}
+			if len(gt) != 1 || gt[0] == nil || gt[0].sum != wantSum || gt[0].n != c.N {
+				d := "nothing"
+				if len(gt) == 1 && gt[0] != nil {
+					d = fmt.Sprintf("sum %d over %d elements", gt[0].sum, gt[0].n)
+				}
+				return fmt.Sprintf("Fold (par %d, round %d) with an in-place counter monoid over %d elements gave %s, the left fold gives sum %d over %d", c.Par, round, c.N, d, wantSum, c.N)
+			}
+			if len(gb) != 1 || len(gb[0]) != len(wantBag) {
+				return fmt.Sprintf("Fold (par %d, round %d) with an in-place multiset union gave %v, want %v", c.Par, round, gb, wantBag)
+			}
+			for k, v := range wantBag {
+				if gb[0][k] != v {
+					return fmt.Sprintf("Fold (par %d, round %d) with an in-place multiset union gave %v, want %v", c.Par, round, gb[0], wantBag)
+				}
+			}
+			for i, x := range ts {
+				if x.sum != i+1 || x.n != 1 || len(bs[i]) != 2 {
+					return fmt.Sprintf("Fold changed input element %d", i)
+				}
+			}
+		}
+		return ""
+	}
+}
+
+func progsInPlaceMonoid(t *testing.T, prop string, pars []int) {
+	for _, par := range pars {
+		for _, n := range []int{0, 1, 2, 3, par, par + 1, 10, 100} {
+			runProg(t, prop, &caseT{Stage: "prog/fold-in-place-monoid", Par: par, N: n})
+		}
 	}
 }
